@@ -129,7 +129,7 @@ func RectClipLinesPathsD(rect RectD, paths PathsD, precisionV ...int) PathsD {
 
 	rc := NewRectClipLines64(r)
 	result := rc.Execute(tmpPaths)
-	return ScalePaths64ToPathsD(result, scale)
+	return ScalePaths64ToPathsD(result, 1/scale)
 }
 
 func RectClipLinesPathD(rect RectD, path PathD) PathsD {
